@@ -131,11 +131,11 @@ PROPERTIES = {
         clause="the rational kernel is not truncated to integers; the LLL loop returns only what passed the exact membership test. NOT decided: independence, completeness."),
     "C17": dict(
         specs=[S("SETTINGS-W"), S("SETTINGS-C"), S("ROOTS"), S("LOSSY", r"utils/expressions.py"), S("SOLVERFLAG"), S("REBUILD"), S("PARSER", r"_transform_categorical"),
-               S("ORDER", r"cond2arithm=True"), S("COND2ARITHM"), S("FLAGS"), S("TYPERFIX"), S("TYPER"), S("OPTRESOLVE"), S("MEMOKEY")],
+               S("ORDER", r"cond2arithm=True"), S("COND2ARITHM"), S("FLAGS"), S("TYPERFIX"), S("TYPER"), S("OPTRESOLVE"), S("MEMOKEY"), S("RESOLVE")],
         clause="options are written only by the CLI setter and read at call time; settings<->options<->setter census; every root source is complete and approximations clear "
                "the flag; cond2arithm keeps every assignment; categorical expansion keeps index/value/probability aligned. NOT decided: equality of closed forms across settings."),
     "C18": dict(
-        specs=[S("EXCEPT"), S("FALLTHROUGH"), S("QUANT"), S("REBUILD"), S("COND2ARITHM"), S("SECTIONTABLES"), S("SUPPORT", r"get_free_symbols"), S("LOSTUPDATE"), S("DEPSOURCES"), S("VOCAB", r"dispatch|mixing"), S("D2"), S("ABSTRACT"), S("MGF")],
+        specs=[S("EXCEPT"), S("FALLTHROUGH"), S("QUANT"), S("REBUILD"), S("COND2ARITHM"), S("SECTIONTABLES"), S("SUPPORT", r"get_free_symbols"), S("LOSTUPDATE"), S("DEPSOURCES"), S("VOCAB", r"dispatch|mixing"), S("D2"), S("ABSTRACT"), S("MGF"), S("RESOLVE")],
         clause="the safety half only (`whatever Polar refuses, it refuses with an error; a refusal never takes the form of a wrong or partial result`): no exception handler swallows an exception "
                "(each re-raises on every path or is a reviewed complete fallback); no function returns a value on some paths and ends without one on others unless its callers test for the missing value; "
                "section rebuilders and cond2arithm raise for what they cannot convert instead of dropping it; dispatchers on operators / function names are total or end in raise; exponentials and mgf uses sit behind raising checks. "
@@ -154,73 +154,109 @@ PROPERTIES = {
 }
 
 # clause / technique texts as of the last hardening pass (override the shorter texts above; MANIFEST.json is generated from them)
-CLAUSES = {'C01': '(i) exactness-flag plumbing: every approximating call clears, and every combiner forwards, the flag that print_is_exact reports (a flag overwritten per loop item counts '
-        'as dropped); (ii) pipeline order: a parsed program reaches the recurrence builders only through normalize_program; (iii) the necessary conditions shared with C02 '
-        '(normalisation mechanisms), C03 (indicator tables, guarded-assignment moment shape, fresh builder context) and C19 (parser templates, probability validation, '
-        'simultaneous assignment). NOT decided: that any closed form equals the expectation (value-level; the solver defect F18 was found by probing, not by a rule).',
- 'C02': 'typestate of the 10-pass pipeline on all settings paths; write-back of substitutions in all subs implementations; constant folding guarded by a free-symbol test and a '
-        'single initial assignment; section rebuilders keep every assignment; memo/alias stores are invalidated on every reassignment; if-flattening saves every condition '
-        'variable and accumulates negations; single-assignment renaming falls back to the previous version; location/scale rewriting preserves the law (rational-function '
-        'identity); per-section tables. NOT decided: semantic equivalence of the rewrites as a whole.',
- 'C03': 'indicator polynomials of And/Or/Not/True/False equal their boolean meaning on all rows; composite conditions recurse into every child; the three get_moment bodies share '
-        'the guarded-assignment shape (branch i pairs probabilities[i] with polynomials[i]**k); Atom.to_arithm is the Lagrange product with the outside-type case; power reduction '
-        'cases are guarded by facts that imply them; the Vandermonde system is oriented consistently; every backward substitution starts from a fresh context. NOT decided: '
-        'closure of the system, coefficients.',
- 'C05': 'discrete supports enumerate the values the moment/sampler sides use; intervals are refused; only non-failed numeric sets become types; the start state covers the whole '
-        'initial block; the default is in the value set whenever it is another variable (truth table over the guard tests); implied-by-guard answers are sound; no memoised '
-        'support set is extended by a caller. NOT decided: that the fixed point covers all reachable values.',
- 'C06': 'no truncation of a rational kernel on the way to exponent vectors (the integer kernel uses integer row operations only); one multiplicity row per factor (no shared row '
-        'object); exponentials are abstracted only behind raising checks; bases and abstraction symbols stay aligned; the eliminated symbols are exactly the lex prefix that is '
-        'filtered; the saturation through inverse symbols is reachable; goal closed forms are stored under the identifier of their own kind. NOT decided: that reported '
-        'polynomials vanish on the sequences.',
- 'C07': 'both groebner() calls compute elimination ideals (generator prefix == filtered symbols, lex order); the trivial-lattice shortcut is entered only for all-rational bases; '
-        'the saturation of the lattice ideal is reachable; the Gram-Schmidt norm is compared with the Faccin bound in the same dimension; the LLL loop returns only what passed '
-        'the exact membership test. NOT decided: completeness of the exponent lattice.',
- 'C13': "mgf is used only behind a raising existence test at the order used, and the test encodes the family's domain; function-name literals are in the grammar vocabulary, "
-        'dispatchers (if-chain or table) are total, trig/exp mixing is refused; the transform enters differentiated identity-power times, a raw moment standing in for the '
-        'derivative at 0 carries I**a (cf) / no unit (mgf); rounding happens in one funnel; no process-wide store of functional moments outlives the exact/rounded mode. NOT '
-        'decided: the transform formulas.',
- 'C16': 'the rational kernel is not truncated to integers; one row per factor; the trivial-lattice shortcut needs all bases rational and pairwise coprimality; norm and bound are '
-        'compared in the same dimension; the LLL loop returns only what passed the exact membership test. NOT decided: independence, completeness.',
- 'C19': 'parser templates are precedence-safe; arithmetic is re-stringified token by token by the transformer Lark is built with; probability vectors (all constants, also after a '
-        'symbolic one) and assigned names are validated; every float occurring in a coefficient / probability / parameter becomes the rational of its decimal text (depth of the '
-        'conversion is classified); simultaneous assignment writes no target before all right-hand sides are in temporaries. NOT decided: equality of the analyses of two '
-        'spellings.',
- 'C20': 'inventory of process-global mutable state equals the reviewed table; settings are not written outside the setter (except scoped try/finally overrides); the parsed '
-        'command line is never written by an action; memoised callables read nothing the analysis phase mutates and hand no mutable container to a caller that writes into it; '
-        'order-sensitive consumers of sets are reviewed (violation only with evidence of seed-dependent element hashes); randomness only in the simulator; the class flag is '
-        'refreshed by every normalisation; solver tables and builder contexts are per program. NOT decided: equality of results across histories / hash seeds.'}
-TECHNIQUES = {'C01': 'static dataflow of exactness flags (def-use closure over (value, is_exact) pairs, definitions reaching each return), lossy-call census, CFG typestate '
-        'parse->normalize->consume over CLI actions; plus the rules of C02/C03/C19 as shared necessary conditions',
- 'C02': 'typestate over normalize_program (derived pass requirements/effects on all settings paths), write-back analysis of subs methods, CFG control dependence of constant '
-        'folding, loop-path exhaustiveness of rebuilders, interprocedural memo-filter analysis, mechanism shape rules with exact rational-function comparison of rewriting '
-        'templates, f-string template hygiene',
- 'C03': 'finite truth tables of evaluate/to_arithm over two-point domains (finite-domain evaluation of method bodies), recursion completeness of composite conditions, sibling '
-        'comparison of get_moment bodies, source-level rational-function identities (Lagrange factor), canonical comparison facts on the CFG (power reduction), helper-following',
- 'C05': 'enumeration agreement of discrete families, CFG control dependence in the typer, truth table over the atoms of the tests controlling `add(default)`, soundness table of '
-        'is_implied_by_loop_guard, memoised-mutable-result flow',
+CLAUSES = {'C01': '(i) exactness-flag plumbing: every approximating call clears, and every combiner forwards, the flag that print_is_exact reports (a flag overwritten per loop ite'
+        'm counts as dropped); (ii) pipeline order: a parsed program reaches the recurrence builders only through normalize_program; (iii) the necessary conditions share'
+        'd with C02 (normalisation mechanisms), C03 (indicator tables, guarded-assignment moment shape, fresh builder context) and C19 (parser templates, probability val'
+        'idation, simultaneous assignment). NOT decided: that any closed form equals the expectation (value-level; the solver defect F18 was found by probing, not by a r'
+        'ule).',
+ 'C02': 'typestate of the 10-pass pipeline on all settings paths; write-back of substitutions in all subs implementations; constant folding guarded by a free-symbol test'
+        ' and a single initial assignment; section rebuilders keep every assignment; memo/alias stores are invalidated on every reassignment; if-flattening saves every c'
+        'ondition variable and accumulates negations; single-assignment renaming falls back to the previous version; location/scale rewriting preserves the law (rational'
+        '-function identity); per-section tables. NOT decided: semantic equivalence of the rewrites as a whole.',
+ 'C03': 'indicator polynomials of And/Or/Not/True/False equal their boolean meaning on all rows; composite conditions recurse into every child; the three get_moment bodi'
+        'es share the guarded-assignment shape (branch i pairs probabilities[i] with polynomials[i]**k); Atom.to_arithm is the Lagrange product with the outside-type cas'
+        'e; power reduction cases are guarded by facts that imply them; the Vandermonde system is oriented consistently; every backward substitution starts from a fresh '
+        'context. mgf uses are dominated by a raising existence test at the order used; the ordered value tuple of a finite type holds the values themselves. NOT decided'
+        ': closure of the system, coefficients.',
+ 'C05': 'discrete supports enumerate the values the moment/sampler sides use; intervals are refused; only non-failed numeric sets become types; the start state covers th'
+        'e whole initial block; the default is in the value set whenever it is another variable (truth table over the guard tests); implied-by-guard answers are sound; n'
+        'o memoised support set is extended by a caller. The symbols read before assignment accumulate over the statements of the body; no sweep clears has_changed after'
+        ' the updates of the same pass. NOT decided: that the fixed point covers all reachable values.',
+ 'C06': 'no truncation of a rational kernel on the way to exponent vectors (the integer kernel uses integer row operations only); one multiplicity row per factor (no sha'
+        'red row object); exponentials are abstracted only behind raising checks; bases and abstraction symbols stay aligned; the eliminated symbols are exactly the lex '
+        'prefix that is filtered; the saturation through inverse symbols is reachable; goal closed forms are stored under the identifier of their own kind. NOT decided: '
+        'that reported polynomials vanish on the sequences.',
+ 'C07': 'both groebner() calls compute elimination ideals (generator prefix == filtered symbols, lex order); the trivial-lattice shortcut is entered only for all-rationa'
+        'l bases; the saturation of the lattice ideal is reachable; the Gram-Schmidt norm is compared with the Faccin bound in the same dimension; the LLL loop returns o'
+        'nly what passed the exact membership test. NOT decided: completeness of the exponent lattice.',
+ 'C08': "every parameter field is consulted by subs/free symbols/sampler/printer/moment/cf/mgf; scipy sampler arguments denote the moment side's law; discrete enumeratio"
+        'ns agree; float parameters become exact rationals; cf(t) == mgf(i t) as rational functions. Holes of the draw-rewriting templates are parenthesised or atomic. N'
+        'OT decided: any moment formula.',
+ 'C09': 'only the source guard is marked as guard; the termination indicator derives from the source guard; after-loop arms condition on termination and take the limit; '
+        'the conditional moment is a ratio over one negated-guard indicator. The limit n->oo is taken of the combined quantity (cumulant / central moment), not of raw mo'
+        'ments before combination; the limit helper maps over every container kind it is handed. NOT decided: limits, divergence.',
+ 'C11': 'the raw->cumulant recursion, the raw->central binomial sum and comb(n,k) are the textbook formulas (identities of rational functions over the source expressions'
+        ', loop ranges included); Markov bounds are E(M**k)/a**k for every requested order and the lower bound is (m1-a)**2/(m2-2*a*m1+a**2); cumulant / central goals us'
+        "e their own conversion, report the entry of the goal's order and request the raw moments up to it; their after-loop arms condition on termination and take the l"
+        'imit; goal kinds are stored under their own identifiers. The limit n->oo is taken after raw moments were combined; tail-bound lists are mapped over by the limit'
+        " helper. NOT decided: the Gram-Charlier / Cornish-Fisher expansions and the Bell / Hermite polynomials, validity of the bounds' assumptions, any reported value.",
+ 'C12': "operator tables of analysis and simulator agree; boolean evaluation equals the indicator; samplers use the moment side's parameter convention and value enumerat"
+        'ion; simulator dispatch / first-match branching / guard stuttering / guarded assignment have the assumed shape. The sampler of a categorical keeps one weight pe'
+        'r category; what decides whether the loop body runs is not carried over from the previous sample run. NOT decided: the distribution of simulated states.',
+ 'C13': "mgf is used only behind a raising existence test at the order used, and the test encodes the family's domain; function-name literals are in the grammar vocabula"
+        'ry, dispatchers (if-chain or table) are total, trig/exp mixing is refused; the transform enters differentiated identity-power times, a raw moment standing in fo'
+        'r the derivative at 0 carries I**a (cf) / no unit (mgf); rounding happens in one funnel; no process-wide store of functional moments outlives the exact/rounded '
+        'mode. NOT decided: the transform formulas.',
+ 'C15': 'CPT rows are written only after the row-sum check, in default->table->entries order with a final completeness check; generated code is in topological order, num'
+        'bers values by domain position of their own variable; names are sanitised to grammar atoms. Sanitised names that the CAS reads as constants are altered. NOT dec'
+        'ided: numeric query answers.',
+ 'C16': 'the rational kernel is not truncated to integers; one row per factor; the trivial-lattice shortcut needs all bases rational and pairwise coprimality; norm and b'
+        'ound are compared in the same dimension; the LLL loop returns only what passed the exact membership test. NOT decided: independence, completeness.',
+ 'C17': 'options are written only by the CLI setter and read at call time; settings<->options<->setter census; every root source is complete and approximations clear the'
+        ' flag; cond2arithm keeps every assignment; categorical expansion keeps index/value/probability aligned. Hand-written memo tables that outlive a call are keyed b'
+        'y every strategy option their value is computed with; methods called on freshly constructed repository objects exist (code behind non-default options); a transl'
+        'ation that yields several statements is spliced, not appended. NOT decided: equality of closed forms across settings.',
+ 'C18': 'the safety half only (`whatever Polar refuses, it refuses with an error; a refusal never takes the form of a wrong or partial result`): no exception handler swa'
+        'llows an exception (each re-raises on every path or is a reviewed complete fallback); no function returns a value on some paths and ends without one on others u'
+        'nless its callers test for the missing value; section rebuilders and cond2arithm raise for what they cannot convert instead of dropping it; dispatchers on opera'
+        'tors / function names are total or end in raise; exponentials and mgf uses sit behind raising checks. A method called on a freshly constructed repository object'
+        ' is defined in its class hierarchy (an AttributeError is not a refusal). NOT decided: the liveness half (that every loop within the documented restrictions is a'
+        'ccepted and yields a closed form).',
+ 'C19': 'parser templates are precedence-safe; arithmetic is re-stringified token by token by the transformer Lark is built with; probability vectors (all constants, als'
+        'o after a symbolic one) and assigned names are validated; every float occurring in a coefficient / probability / parameter becomes the rational of its decimal t'
+        'ext (depth of the conversion is classified); simultaneous assignment writes no target before all right-hand sides are in temporaries. NOT decided: equality of t'
+        'he analyses of two spellings.',
+ 'C20': 'inventory of process-global mutable state equals the reviewed table; settings are not written outside the setter (except scoped try/finally overrides); the pars'
+        'ed command line is never written by an action; memoised callables read nothing the analysis phase mutates and hand no mutable container to a caller that writes '
+        'into it; order-sensitive consumers of sets are reviewed (violation only with evidence of seed-dependent element hashes); randomness only in the simulator; the c'
+        'lass flag is refreshed by every normalisation; solver tables and builder contexts are per program. Hand-written memo tables on shared objects are keyed by every'
+        ' option they depend on. NOT decided: equality of results across histories / hash seeds.'}
+TECHNIQUES = {'C01': 'static dataflow of exactness flags (def-use closure over (value, is_exact) pairs, definitions reaching each return), lossy-call census, CFG typestate parse->nor'
+        'malize->consume over CLI actions; plus the rules of C02/C03/C19 as shared necessary conditions',
+ 'C02': 'typestate over normalize_program (derived pass requirements/effects on all settings paths), write-back analysis of subs methods, CFG control dependence of const'
+        'ant folding, loop-path exhaustiveness of rebuilders, interprocedural memo-filter analysis, mechanism shape rules with exact rational-function comparison of rewr'
+        'iting templates, f-string template hygiene',
+ 'C03': 'finite truth tables of evaluate/to_arithm over two-point domains (finite-domain evaluation of method bodies), recursion completeness of composite conditions, si'
+        'bling comparison of get_moment bodies, source-level rational-function identities (Lagrange factor), canonical comparison facts on the CFG (power reduction), hel'
+        'per-following',
+ 'C05': 'enumeration agreement of discrete families, CFG control dependence in the typer, truth table over the atoms of the tests controlling `add(default)`, soundness t'
+        'able of is_implied_by_loop_guard, memoised-mutable-result flow',
  'C06': 'def-use taint from Matrix.nullspace to integer casts, dominating raise-guards in abstract_exponentials, generator-prefix check of groebner calls, shared-object '
         '(aliasing) analysis of row tables, reachability of the saturation branch, template lead analysis of goal identifiers',
- 'C07': 'generator-prefix / monomial-order check at both groebner call sites, guard-quantifier check of the trivial-lattice shortcut, dead-guard analysis, dimension analysis of '
-        'the norm/bound comparison, loop-exit dominance of the exact membership test',
- 'C08': 'field-coverage matrix over 10 distribution classes, exact rational-function comparison of scipy sampler arguments, of cf(t) vs mgf(it) and of closed-form moments vs. '
-        'textbook forms, conversion-depth classification of float parameters, reviewed inventory of distribution-level state',
- 'C09': 'provenance (def-use taint) of is_loop_guard and original_loop_guard stores, CFG control dependence of conditioning/limit calls on the after_loop option, shape of the '
-        'conditional-moment ratio',
+ 'C07': 'generator-prefix / monomial-order check at both groebner call sites, guard-quantifier check of the trivial-lattice shortcut, dead-guard analysis, dimension anal'
+        'ysis of the norm/bound comparison, loop-exit dominance of the exact membership test',
+ 'C08': 'field-coverage matrix over 10 distribution classes, exact rational-function comparison of scipy sampler arguments, of cf(t) vs mgf(it) and of closed-form moment'
+        's vs. textbook forms, conversion-depth classification of float parameters, reviewed inventory of distribution-level state',
+ 'C09': 'provenance (def-use taint) of is_loop_guard and original_loop_guard stores, CFG control dependence of conditioning/limit calls on the after_loop option, shape o'
+        'f the conditional-moment ratio; def-use order of limit and combination; container-kind agreement between callers and the limit helper',
  'C12': 'operator-table extraction and comparison (if-chain or dict), truth tables, sampler contracts, semantic CFG rules of the simulator (dispatch, first-match, guard '
-        'stuttering, initial state per run)',
+        'stuttering, initial state per run); liveness of deciding locals across the per-sample loop; loop-path exhaustiveness of the weight list',
  'C13': 'CFG dominance of mgf uses by a raising existence test, vocabulary check of function-name literals against the grammar, dispatcher totality (if-chain or table), '
         'transform-term analysis (derivative order, unit of moment stand-ins), state inventory restricted to functional moments',
- 'C15': 'CFG path analysis of CPT writers (no path avoids the row-sum guard), call-order dominance in __add_cpt__, index pairing of domain.index sites by nearest-definition '
-        'slicing, template hygiene and sanitiser character class / uniqueness order, state inventory (cached parser objects)',
- 'C16': 'def-use taint nullspace->astype(int), integer-only row operations of the kernel routine, aliasing analysis of the multiplicity table, guard-quantifier and pairwise-gcd '
-        'checks of the shortcut, dimension analysis, loop-exit dominance of the exact membership test',
- 'C17': 'who-may-write analysis of the settings module, three-way census settings/options/setter, library-contract check of root sources (all=True on square-free factors, factor '
-        'multiplicity), flag plumbing incl. last-item-wins, rebuilder exhaustiveness',
- 'C19': 'template splice hygiene, grammar reader (named-terminal and join check), CFG dominance/exhaustiveness of validators before program_variables.add / PolyAssignment '
-        'construction, conversion-depth classification along helper routes, block classification of the simultaneous-assignment expansion',
- 'C20': 'inventory of process-global mutable state against a reviewed table, writers of settings and of the parsed command line, memoisation purity via field read/write sets and '
-        'call sites, memoised-mutable-result flow, reviewed order-sensitive set consumers with element-hash evidence, randomness census'}
+ 'C15': 'CFG path analysis of CPT writers (no path avoids the row-sum guard), call-order dominance in __add_cpt__, index pairing of domain.index sites by nearest-definit'
+        'ion slicing, template hygiene and sanitiser character class / uniqueness order, state inventory (cached parser objects)',
+ 'C16': 'def-use taint nullspace->astype(int), integer-only row operations of the kernel routine, aliasing analysis of the multiplicity table, guard-quantifier and pairw'
+        'ise-gcd checks of the shortcut, dimension analysis, loop-exit dominance of the exact membership test',
+ 'C17': 'who-may-write analysis of the settings module, three-way census settings/options/setter, library-contract check of root sources (all=True on square-free factors'
+        ', factor multiplicity), flag plumbing incl. last-item-wins, rebuilder exhaustiveness; memo-key completeness against the option names of settings.py; method reso'
+        'lution on constructor-bound locals',
+ 'C18': 'error-discipline analysis: census and path classification of all exception handlers, CFG exit analysis of every value-returning function (implicit None) with ca'
+        'll-site awareness, loop-path exhaustiveness of rebuilders, dispatcher totality, dominance of raising validators; method resolution on constructor-bound locals',
+ 'C19': 'template splice hygiene, grammar reader (named-terminal and join check), CFG dominance/exhaustiveness of validators before program_variables.add / PolyAssignmen'
+        't construction, conversion-depth classification along helper routes, block classification of the simultaneous-assignment expansion',
+ 'C20': 'inventory of process-global mutable state against a reviewed table, writers of settings and of the parsed command line, memoisation purity via field read/write '
+        'sets and call sites, memoised-mutable-result flow, reviewed order-sensitive set consumers with element-hash evidence, randomness census; memo-key completeness a'
+        'gainst the option names of settings.py'}
 for _k, _v in CLAUSES.items():
     PROPERTIES[_k]['clause'] = _v
 for _k, _v in TECHNIQUES.items():
